@@ -77,6 +77,10 @@ GRAMMARS = {
     "clo": "start = {item}* $ ;\nitem = /\\d+/ | word ;\nword = /[a-z]+/ ;\n",
     "clo_b": "start = {item}* $ ;\nitem = /\\d+/ ;\n",
     "opt": "start = ['-'] num ['!'] $ ;\nnum = /\\d+/ ;\n",
+    # a choice between rule calls inside a named / repeated / optional element: first sets of nested nodes are worked out
+    # more than once (grammar analysis, error messages, code generation) and must come out the same every time
+    "clo_n": "start = { x+:(num | word) }+ $ ;\nnum = /\\d+/ ;\nword = /[a-z]+/ ;\n",
+    "opt_n": "start = 'let' ~ v:(num | word) [ '=' (num | word) ] $ | '(' @:(word | num) ')' $ ;\nnum = /\\d+/ ;\nword = /[a-z]+/ ;\n",
     "join": "start = ','.{num}+ $ ;\nnum = /\\d+/ ;\n",
     "nlist": "start = xs+:num {',' xs+:num}* $ ;\nnum = /\\d+/ ;\n",
     # rule decorators, inheritance, keyword parameters
@@ -132,6 +136,8 @@ INPUTS = {
     "clo": ["1 a 2", "", "1", "a", "1 !"],
     "clo_b": ["1 2", "", "1", "a"],
     "opt": ["-1!", "1", "-", "-1", "1!"],
+    "clo_n": ["?", "1 a", "1", "", "a ?"],
+    "opt_n": ["let ?", "let a = 1", "(a)", "(?", "let a = ?", "?"],
     "join": ["1,2,3", "1,", "1", ""],
     "nlist": ["1,2,3", "1", "1,2"],
     "inh": ["x y", "y", "x"],
@@ -151,7 +157,7 @@ for _g, _ts in INPUTS.items():
                 if _v not in _ts:
                     _ts.append(_v)
 FAMILIES = [["typed", "typed_b", "typed_c", "params", "typed_d", "typed_tok"], ["kw", "icase", "kw_b", "kw_c"], ["ref", "two", "choice", "ws", "choice_b"], ["lrec", "cut", "over", "named", "const", "lrec_b"],
-            ["nums", "nums_b"], ["cmt_a", "cmt_b", "cmt_c"], ["clo", "clo_b", "opt", "join", "nlist"], ["inh", "nomemo", "kwparams", "kwparams_b", "params"], ["eol", "ws"], ["bt", "bt_b", "lrec", "choice"], ["tok_a", "tok_b", "pat_a", "pat_b"], ["cn_a", "cn_b", "cn_c", "cn_d", "const"]]
+            ["nums", "nums_b"], ["cmt_a", "cmt_b", "cmt_c"], ["clo", "clo_b", "opt", "join", "nlist", "clo_n", "opt_n"], ["inh", "nomemo", "kwparams", "kwparams_b", "params"], ["eol", "ws"], ["bt", "bt_b", "lrec", "choice"], ["tok_a", "tok_b", "pat_a", "pat_b"], ["cn_a", "cn_b", "cn_c", "cn_d", "const"]]
 FAMILY_RULES = {"bt": ["start", "num", "e", "n", "x"], "cmt_a": ["start", "num"], "clo": ["start", "item", "word", "num"], "inh": ["start", "base", "sub", "a", "num"], "eol": ["start", "w", "word"], "nums": ["start", "value", "integer", "real", "flag"], "tok_a": ["start"], "typed": ["start", "num", "word", "nosuch"], "kw": ["start", "name", "stmt"], "ref": ["start", "num", "word", "first", "second", "x", "nosuch"],
                 "lrec": ["start", "e", "n", "a", "b", "num"]}
 
@@ -1156,7 +1162,7 @@ def gen_call(rng, handles, models_only=False, allow_fault=True, focus=None):
     return op
 
 
-GOOD_INPUT = {"bt": "1-2", "bt_b": "a-b", "cmt_a": "1 (* c *) 2", "cmt_b": "1 {c} 2", "cmt_c": "1 2", "clo": "1", "clo_b": "1", "opt": "-1!", "join": "1", "nlist": "1,2", "inh": "x y", "nomemo": "x", "kwparams": "1", "kwparams_b": "1", "eol": "a\nb", "choice_b": "0x1f", "lrec_b": "a+b", "typed_tok": "begin 42", "kw_c": "IF", "manypat": "x71y", "cn_a": "7", "cn_b": "x", "cn_c": "x", "cn_d": "7 ab", "nums": "1", "nums_b": "1", "tok_a": "end if", "tok_b": "end  if", "pat_a": "12 34", "pat_b": "12  34", "ref": "12 ab", "choice": "a", "typed": "1", "typed_b": "1", "typed_c": "1 a", "typed_d": "ab", "params": "1", "kw": "x", "kw_b": "x",
+GOOD_INPUT = {"clo_n": "1", "opt_n": "let a = 1", "bt": "1-2", "bt_b": "a-b", "cmt_a": "1 (* c *) 2", "cmt_b": "1 {c} 2", "cmt_c": "1 2", "clo": "1", "clo_b": "1", "opt": "-1!", "join": "1", "nlist": "1,2", "inh": "x y", "nomemo": "x", "kwparams": "1", "kwparams_b": "1", "eol": "a\nb", "choice_b": "0x1f", "lrec_b": "a+b", "typed_tok": "begin 42", "kw_c": "IF", "manypat": "x71y", "cn_a": "7", "cn_b": "x", "cn_c": "x", "cn_d": "7 ab", "nums": "1", "nums_b": "1", "tok_a": "end if", "tok_b": "end  if", "pat_a": "12 34", "pat_b": "12  34", "ref": "12 ab", "choice": "a", "typed": "1", "typed_b": "1", "typed_c": "1 a", "typed_d": "ab", "params": "1", "kw": "x", "kw_b": "x",
               "icase": "x", "ws": "ab cd", "const": "a", "named": "1", "over": "(1)", "lrec": "1", "cut": "x y", "two": "ab"}
 
 
@@ -1428,6 +1434,48 @@ def gen_firstuse_history(rng, handles):
     return ops
 
 
+def gen_paths_history(rng, handles):
+    """ONE grammar under ONE name and ONE set of options, reached through every road the API has, in random order:
+    compile + model.parse, the one-shot tatsu.parse, to_python_sourcecode, to_python_model, generated parser + parse -
+    with inputs that succeed and inputs that fail.  All roads share one cached model: what one of them works out lazily
+    on it (first sets, lookahead lists, expected-token messages, rule infos) must not change what another one returns."""
+    g = rng.choice([x for x in GRAMMARS if x not in ("bad", "manypat")])
+    if rng.random() < 0.5:
+        g = rng.choice(["clo_n", "opt_n", "clo", "opt", "join", "nlist", "choice", "choice_b", "cut", "lrec", "lrec_b", "bt", "kw", "typed_c", "over", "inh"])
+    name = rng.choice([None, None, None, "A", "P"])
+    settings = dict(rng.choice([{}, {}, {}, {"parseinfo": True}, {"nameguard": False}, {"ignorecase": True}]))
+    texts = list(INPUTS[g])
+    ops = []
+    model = parser = None
+    for _ in range(rng.choice([4, 5, 6, 7, 9])):
+        k = rng.random()
+        if k < 0.22:
+            if model is None or rng.random() < 0.2:
+                _HCTR[0] += 1
+                model = f"m{_HCTR[0]}"
+                c = {"op": "compile", "g": g, "name": name, "asmodel": False, "sem": "none", "settings": dict(settings), "out": model}
+                handles[model] = c
+                ops.append(c)
+            ops.append({"op": "mparse", "h": model, "g": g, "text": rng.choice(texts)})
+        elif k < 0.4 and model is not None:
+            ops.append({"op": "mparse", "h": model, "g": g, "text": rng.choice(texts)})
+        elif k < 0.55:
+            ops.append({"op": "parse", "g": g, "text": rng.choice(texts), "name": name, "asmodel": False, "sem": "none", "settings": dict(settings)})
+        elif k < 0.72:
+            ops.append({"op": "src", "g": g, "name": name, "settings": dict(settings)})
+        elif k < 0.8:
+            ops.append({"op": "pymodel", "g": g, "name": name})
+        else:
+            if parser is None:
+                _HCTR[0] += 1
+                parser = f"p{_HCTR[0]}"
+                c = {"op": "load", "g": g, "name": name, "out": parser}
+                handles[parser] = c
+                ops.append(c)
+            ops.append({"op": "pparse", "h": parser, "g": g, "text": rng.choice(texts)})
+    return ops
+
+
 def gen_builder_history(rng, handles):
     """An application that creates ONE BuilderConfig object (or one list of constructors) and passes it to every call,
     with per-call modules of node classes (typedefs) whose class names overlap: what one call leaves in the caller's
@@ -1474,6 +1522,8 @@ def gen_spec(seed: int, mode: str | None = None) -> dict:
             ops = gen_service_history(rng, handles)
         elif k < 0.33:
             ops = gen_firstuse_history(rng, handles)
+        elif k < 0.43:
+            ops = gen_paths_history(rng, handles)
         elif k < 0.6:
             ops = gen_pair_history(rng, handles)
         else:
